@@ -91,7 +91,8 @@ def _run(mask, order, ck, clen, pathi, prov, fault_step, fault_kind):
     """ck: 0 no COOKIEFILE field, 1 unreadable, 2 readable with clen bytes
     prov: 0 None, 1 'pw', 2 '', 3 Deferred->'pw', 4 coroutine->'pw', 5 raises
     fault_step: 0 none, 1 PROTOCOLINFO, 2 AUTHCHALLENGE, 3 AUTHENTICATE, 4 a bootstrap query
-    fault_kind: 0 5xx, 1 disconnect, 2 (AUTHCHALLENGE only) wrong hash, 3 odd-length hex, 4 missing SERVERNONCE"""
+    fault_kind: 0 5xx, 1 disconnect, 2 (AUTHCHALLENGE only) wrong hash, 3 odd-length hex, 4 missing SERVERNONCE,
+    5..8 a 0/1/16/31-byte prefix of the right hash"""
     prelude.reset_module_state()
     _env.clear()
     _env.update(opened=[], cookie_kind=ck, cookie_len=clen, urandom_calls=0)
@@ -173,8 +174,13 @@ def _run(mask, order, ck, clen, pathi, prov, fault_step, fault_kind):
                             ' SERVERNONCE=' + binascii.hexlify(SNONCE).decode().upper())
                     elif fault_kind == 3:
                         say('250 AUTHCHALLENGE SERVERHASH=ABC SERVERNONCE=' + binascii.hexlify(SNONCE).decode().upper())
-                    else:
+                    elif fault_kind == 4:
                         say('250 AUTHCHALLENGE SERVERHASH=' + binascii.hexlify(_hm(S2C, cookie)).decode().upper())
+                    else:
+                        # a prefix of the right hash (empty / 1 / 16 / 31 bytes): the server has not proved the cookie
+                        n = {5: 0, 6: 1, 7: 16, 8: 31}[fault_kind]
+                        say('250 AUTHCHALLENGE SERVERHASH=' + binascii.hexlify(_hm(S2C, cookie)[:n]).decode().upper() +
+                            ' SERVERNONCE=' + binascii.hexlify(SNONCE).decode().upper())
                     continue
                 say('250 AUTHCHALLENGE SERVERHASH=' + binascii.hexlify(_hm(S2C, cookie)).decode().upper() +
                     ' SERVERNONCE=' + binascii.hexlify(SNONCE).decode().upper())
@@ -301,7 +307,7 @@ def c04_auth(order: int, ck: int, clen: int, pathi: int, prov: int, fstep: int, 
     if not (mask & 2):
         assume(prov <= 1)
     fstep = api.pick(fstep, 0, 4)
-    fkind = api.pick(fkind, 0, 4)
+    fkind = api.pick(fkind, 0, 8)
     if fstep == 0:
         assume(fkind == 0)
     elif fstep != 2:
